@@ -23,6 +23,27 @@
 EXTENDS Naturals, Sequences, FiniteSets, TLC
 
 -----------------------------------------------------------------------------
+(* The error-reporting protocol of vnaerr(3), for any call outcome o =      *)
+(* [ok, err, cb]: the error function is never called (other than with       *)
+(* warnings) on a call that then reports success; a failing call reports    *)
+(* exactly once, on one line, with the category its errno stands for.       *)
+
+CbNonWarn(cb) == {k \in 1..Len(cb) : cb[k].cat # "WARNING"}
+
+ErrnoOfCategory(cat) ==
+    CASE cat = "USAGE" -> {"EINVAL"} [] cat = "VERSION" -> {"ENOPROTOOPT"}
+      [] cat = "SYNTAX" -> {"EBADMSG"} [] cat = "MATH" -> {"EDOM"}
+      [] cat = "INTERNAL" -> {"ENOSYS"}
+      [] OTHER -> {"OTHER", "ENOMEM", "ENOENT", "EINVAL", "ERANGE"}   \* SYSTEM: any
+
+CbQuietOnSuccess(o) == o.ok = 1 => CbNonWarn(o.cb) = {}
+
+CbOnceOnFailure(o) ==
+    o.ok = 0 => /\ Cardinality(CbNonWarn(o.cb)) = 1
+                /\ \A k \in CbNonWarn(o.cb) :
+                      o.cb[k].one = 1 /\ o.err \in ErrnoOfCategory(o.cb[k].cat)
+
+-----------------------------------------------------------------------------
 (* Parameter types and dimension rule (vnadata(3), vnaconv(3))             *)
 
 AnyDimTypes  == {"S", "Z", "Y"}                     \* defined for n ports
@@ -385,6 +406,10 @@ V2KeywordsOK(kws, ports, noise) ==
 (*   kwp (order of the optional version-2 keywords)  ref (write [Reference] *)
 (*   even when one impedance would do)  mfx (write [Matrix Format] Full)    *)
 (*   noise (write the noise block)                                          *)
+(*   tol: a construct outside the format definitions that the loader may    *)
+(*   tolerate (with a warning): "version10" a [Version] 1.0 line before a    *)
+(*   version-1 option line, "noend" a version-2 file without [End],          *)
+(*   "wrongext" a version-1 file whose .s<n>p name gives another port count  *)
 (*   deco, num, lb, acc: comments / blank lines / case / spacing, number    *)
 (*   style, line breaking, way of loading (vnadata_load, vnadata_fload,     *)
 (*   type from set_filetype, the other Touchstone extension, into an object *)
@@ -415,6 +440,9 @@ ValidSpelling(c, s) ==
             /\ (s.ord = "na") <=> (c.ports # 2)
             /\ (s.mf # "full" => c.sym))
     /\ (s.noise => c.noise > 0)
+    /\ (s.tol \in {"version10", "wrongext"} => s.fr = "v1")
+    /\ (s.tol = "noend" => s.fr = "v2")
+    /\ s.tol \in {"none", "version10", "noend", "wrongext"}
 
 (* the structural part of the text a spelling produces *)
 V2Kws(c, s) ==
